@@ -98,9 +98,11 @@ structure State where
   fcs : List (Nat × Ups × FC)
   /-- contents of the UpstreamCluster lister -/
   listed : List (Ups × List Schema)
+  /-- keys of `upstreamLock` (created by the first upstream event handled for the upstream, never removed) -/
+  locks : List Ups
   deriving DecidableEq, Repr
 
-def init : State := ⟨[], [], [], [], [], [], []⟩
+def init : State := ⟨[], [], [], [], [], [], [], []⟩
 
 /-! ## Names -/
 
@@ -278,7 +280,8 @@ def handle (s : State) (u : Ups) : State :=
     | none => deleteUpstream s sh u
     | some schemas =>
       let upc := updateUpstreamStateCondition (getCond s sh u (stateName u)) u schemas
-      syncFlowControl { s with conds := saveCond s.conds sh upc } sh u schemas
+      syncFlowControl { s with conds := saveCond s.conds sh upc,
+                               locks := if s.locks.contains u then s.locks else s.locks ++ [u] } sh u schemas
 
 /-! ## `UpdateRateLimitConditionStatus` -/
 
@@ -303,6 +306,7 @@ def report (s : State) (u : Ups) (i : Inst) (ritems : List (Str × Kind)) (quota
   let sh := shardOf u
   if !isLeader s sh then (s, .err "notLeader")
   else if !s.shards.contains sh then (s, .err "noStore")
+  else if !s.locks.contains u then (s, .err "noLock")
   else
     match getCond s sh u (stateName u) with
     | none => (s, .err "notFound")
